@@ -39,6 +39,8 @@ pub mod text;
 pub mod layout;
 #[path = "c02_morx.rs"]
 pub mod morx;
+#[path = "c02_fraclig.rs"]
+pub mod fraclig;
 use text::{alphabet_for, Tok};
 
 pub struct C02;
@@ -1300,6 +1302,9 @@ pub struct Generated {
     pub gdef_from_gpos: bool,
     /// a generated `morx` table in a font without GSUB / GPOS (the other programs are ignored)
     pub morx: Option<morx::MorxCase>,
+    /// a generated GSUB with a `frac` feature and ligatures / multi-glyph lookups over letters,
+    /// digits and the slash; the text is the model's own (the other programs are ignored)
+    pub fraclig: Option<fraclig::FracLig>,
 }
 
 const GEN_SCRIPTS: [[u8; 4]; 9] = [*b"arab", *b"deva", *b"khmr", *b"mym2", *b"thai", *b"syrc", *b"beng", *b"taml", *b"mlym"];
@@ -1324,10 +1329,37 @@ fn build_morx_font(m: &morx::MorxCase) -> Option<FontEntry> {
     let mut e = make_entry("generated", "generated/morx:latn".to_string(), *b"latn", true, f.build())?;
     e.generated = true;
     let n = f.num_glyphs();
-    e.well_formed = m.chains.iter().all(|c| c.subs.iter().all(|s| s.substs.iter().all(|(_, map)| map.iter().all(|(_, o)| *o < n)) && s.ligs.iter().all(|l| *l < n)));
+    // well-formed: every glyph the *encoded* tables name exists. 0xFFFF as a substitution value is
+    // well-formed too: it is the AAT "deleted glyph" (the glyph is removed from the run). Only
+    // what `morx::encode` writes counts: the substitution tables of contextual subtables, the
+    // first one of a non-contextual subtable, the ligature list of a ligature subtable.
+    e.well_formed = m.chains.iter().all(|c| {
+        c.subs.iter().all(|s| {
+            let used = match s.kind {
+                1 => s.substs.len(),
+                4 => 1,
+                _ => 0,
+            };
+            s.substs.iter().take(used).all(|(_, map)| map.iter().all(|(_, o)| *o < n || *o == 0xFFFF)) && (s.kind != 2 || s.ligs.iter().all(|l| *l < n))
+        })
+    });
     for t in e.tables.iter_mut().filter(|t| &t.tag == b"morx") {
         t.anchors = anchors.iter().filter(|a| a.off as usize + a.width as usize <= t.len).cloned().collect();
     }
+    Some(e)
+}
+
+/// Letters, digits, '/', U+2044: a GSUB whose ligatures (also nested in context rules) mix
+/// letters and digits, next to a `frac` feature (see c02_fraclig.rs).
+fn build_fraclig_font(m: &fraclig::FracLig) -> Option<FontEntry> {
+    let mut f = synthetic_base();
+    f.cmap.insert(0x2044, 59);
+    let (features, lookups) = fraclig::program(m);
+    let feats: Vec<(&[u8; 4], Vec<u16>)> = features.iter().map(|(t, l)| (t, l.clone())).collect();
+    f.extra.push((*b"GSUB", layout_table(&feats, &lookups)));
+    f.extra.push((*b"GDEF", gdef_classes(&[(1, 36, 1), (37, 38, 3), (42, 50, 2)])));
+    let mut e = make_entry("generated", "generated/fraclig:latn".to_string(), *b"latn", true, f.build())?;
+    e.generated = true;
     Some(e)
 }
 
@@ -1335,6 +1367,9 @@ fn build_generated(g: &Generated) -> Option<FontEntry> {
     use crate::fontgen::{otl, otl_gpos};
     if let Some(m) = &g.morx {
         return build_morx_font(m);
+    }
+    if let Some(m) = &g.fraclig {
+        return build_fraclig_font(m);
     }
     use crate::props::{c04, c05};
     let p4 = g.gsub.as_ref().map(|c| c04::resolve(c));
@@ -1469,9 +1504,10 @@ fn gen_strategy() -> impl Strategy<Value = Generated> {
         25 => tape().prop_map(|t| (None, Some(t))),
         40 => (crate::props::c04::case_strategy(), tape()).prop_map(|(c, t)| (Some(Box::new(c)), Some(t))),
     ];
-    let layout = (programs, 0u8..12, any::<bool>(), any::<bool>()).prop_map(|((gsub, tape), script, retag, gdef_from_gpos)| Generated { gsub, tape, script, retag, gdef_from_gpos, morx: None });
-    let state_tables = morx::strategy().prop_map(|m| Generated { gsub: None, tape: None, script: 0, retag: false, gdef_from_gpos: false, morx: Some(m) });
-    prop_oneof![70 => layout, 30 => state_tables]
+    let layout = (programs, 0u8..12, any::<bool>(), any::<bool>()).prop_map(|((gsub, tape), script, retag, gdef_from_gpos)| Generated { gsub, tape, script, retag, gdef_from_gpos, morx: None, fraclig: None });
+    let state_tables = morx::strategy().prop_map(|m| Generated { gsub: None, tape: None, script: 0, retag: false, gdef_from_gpos: false, morx: Some(m), fraclig: None });
+    let frac_ligatures = fraclig::strategy().prop_map(|m| Generated { gsub: None, tape: None, script: 0, retag: false, gdef_from_gpos: false, morx: None, fraclig: Some(m) });
+    prop_oneof![62 => layout, 26 => state_tables, 12 => frac_ligatures]
 }
 
 fn generated_strategy(max_toks: usize, max_len: u16) -> impl Strategy<Value = Case> {
@@ -1497,6 +1533,22 @@ fn generated_strategy(max_toks: usize, max_len: u16) -> impl Strategy<Value = Ca
         // structural faults are the interesting ones on small generated tables
         if c.faults.len() > 2 {
             c.faults.truncate(2);
+        }
+        if let Some(fl) = &g.fraclig {
+            // the model's own text; FRAC set in the mask (most of the time), mostly intact
+            c.text = fraclig::text(fl).into_iter().map(|ch| Tok::Lit(ch as u32)).collect();
+            c.tail = Vec::new();
+            c.probe = None;
+            c.alphabet = None;
+            if m & 7 != 0 {
+                c.feats = match c.feats {
+                    FeatSel::Mask(b) | FeatSel::MaskOnly(b) => FeatSel::Mask(b | FeatureMask::FRAC.bits()),
+                    FeatSel::Custom(_) => FeatSel::Mask(FeatureMask::FRAC.bits() | if sel & 0x1000 != 0 { FeatureMask::DLIG.bits() } else { 0 }),
+                };
+            }
+            if sel & 0xC000 != 0 {
+                c.faults.clear();
+            }
         }
         c.generated = Some(g);
         c
@@ -1993,7 +2045,29 @@ pub fn case_from_bytes(data: &[u8]) -> arbitrary::Result<Case> {
             _ => c.script,
         };
         c.text_follows_script = false;
-        c.generated = Some(Generated { gsub, tape, script, retag: gflags & 8 != 0, gdef_from_gpos: gflags & 16 != 0, morx: None });
+        c.generated = Some(Generated { gsub, tape, script, retag: gflags & 8 != 0, gdef_from_gpos: gflags & 16 != 0, morx: None, fraclig: None });
+        return Ok(c);
+    }
+    if (120..128).contains(&mode) {
+        // generated frac + ligature font: 32 bytes seed the model (font and text)
+        let mut seed = [0u8; 32];
+        for b in seed.iter_mut() {
+            *b = u.arbitrary()?;
+        }
+        let fl = fraclig_case_from_seed(seed);
+        let mut c = general_case(&mut u)?;
+        c.faults.clear();
+        c.script = if mode & 1 == 0 { ScriptSel::Tag(*b"latn") } else { ScriptSel::Tag(*b"DFLT") };
+        c.text_follows_script = false;
+        c.probe = None;
+        if let Some(fl) = &fl {
+            c.text = fraclig::text(fl).into_iter().map(|ch| Tok::Lit(ch as u32)).collect();
+        }
+        c.feats = match c.feats {
+            FeatSel::Mask(b) | FeatSel::MaskOnly(b) => FeatSel::Mask(b | FeatureMask::FRAC.bits()),
+            FeatSel::Custom(_) => FeatSel::Mask(FeatureMask::FRAC.bits()),
+        };
+        c.generated = fl.map(|fl| Generated { gsub: None, tape: None, script: 0, retag: false, gdef_from_gpos: false, morx: None, fraclig: Some(fl) });
         return Ok(c);
     }
     if mode < 128 {
@@ -2009,7 +2083,7 @@ pub fn case_from_bytes(data: &[u8]) -> arbitrary::Result<Case> {
         }
         c.script = if mode & 1 == 0 { ScriptSel::Tag(*b"latn") } else { c.script };
         c.text_follows_script = false;
-        c.generated = m.map(|m| Generated { gsub: None, tape: None, script: 0, retag: false, gdef_from_gpos: false, morx: Some(m) });
+        c.generated = m.map(|m| Generated { gsub: None, tape: None, script: 0, retag: false, gdef_from_gpos: false, morx: Some(m), fraclig: None });
         return Ok(c);
     }
     general_case(&mut u)
@@ -2028,6 +2102,13 @@ fn morx_case_from_seed(seed: [u8; 32]) -> Option<morx::MorxCase> {
     use proptest::test_runner::{Config, RngAlgorithm, TestRng, TestRunner};
     let mut runner = TestRunner::new_with_rng(Config::default(), TestRng::from_seed(RngAlgorithm::ChaCha, &seed));
     morx::strategy().new_tree(&mut runner).ok().map(|t| t.current())
+}
+
+fn fraclig_case_from_seed(seed: [u8; 32]) -> Option<fraclig::FracLig> {
+    use proptest::strategy::ValueTree;
+    use proptest::test_runner::{Config, RngAlgorithm, TestRng, TestRunner};
+    let mut runner = TestRunner::new_with_rng(Config::default(), TestRng::from_seed(RngAlgorithm::ChaCha, &seed));
+    fraclig::strategy().new_tree(&mut runner).ok().map(|t| t.current())
 }
 
 fn general_case(u: &mut Unstructured) -> arbitrary::Result<Case> {
@@ -2427,6 +2508,29 @@ pub fn check_case(case: &Case, rec: &mut Rec) -> CaseResult {
     }
     rec.guard_alloc(bytes.len());
 
+    // ---- classes of the two generated families that are known before shaping (a case that
+    // ---- panics never reaches the accounting at the end)
+    let mut morx_deletes = false;
+    if let Some(g) = &case.generated {
+        if let Some(fl) = &g.fraclig {
+            let frac_on = matches!(&features, Features::Mask(m) if m.contains(FeatureMask::FRAC)) && shaper_name(script_tag) == "default";
+            let (straddles, more) = fraclig::straddles(fl);
+            rec.class_if(frac_on, "fraclig:FRAC-set+default-shaper");
+            rec.class_if(straddles, "fraclig:text:ligature-components-straddle-start-of-fraction");
+            rec.class_if(frac_on && intact && straddles, "fraclig:path:frac+ligature-straddles-start-of-fraction");
+            rec.class_if(frac_on && intact && more, "fraclig:path:frac+ligature-longer-than-window-in-front-of-fraction");
+            rec.class_if(chars.iter().any(|c| c.is_ascii_alphabetic()) && chars.windows(2).any(|w| w[0].is_ascii_alphabetic() && w[1].is_ascii_digit()), "fraclig:text:letter-then-digit");
+            rec.class_if(chars.contains(&'\u{2044}'), "fraclig:text:U+2044");
+        }
+        if let Some(m) = &g.morx {
+            // 0xFFFF (the AAT deleted glyph) as a substitution value of an encoded table
+            let del = |kinds: &[u8]| m.chains.iter().any(|c| c.subs.iter().any(|s| kinds.contains(&s.kind) && s.substs.iter().take(if s.kind == 4 { 1 } else { s.substs.len() }).any(|(_, map)| map.iter().any(|(_, o)| *o == 0xFFFF))));
+            morx_deletes = del(&[1, 4]);
+            rec.class_if(intact && entry.well_formed && del(&[4]), "morx:well-formed+noncontextual-substitution-to-0xFFFF(deleted-glyph)");
+            rec.class_if(intact && entry.well_formed && del(&[1]), "morx:well-formed+contextual-substitution-to-0xFFFF(deleted-glyph)");
+        }
+    }
+
     // ---- load
     let loaded = ReadScope::new(bytes)
         .read::<FontData<'_>>()
@@ -2529,8 +2633,11 @@ pub fn check_case(case: &Case, rec: &mut Rec) -> CaseResult {
             }
         }
         if intact && entry.well_formed && info.glyph.glyph_index >= num_glyphs {
+            // attribution: a well-formed generated morx table that substitutes 0xFFFF (delete
+            // this glyph) and the run carries the marker 0xFFFF itself as a glyph id
+            let sig = if morx_deletes && info.glyph.glyph_index == 0xFFFF { "morx-deleted-glyph-0xFFFF-delivered-in-run" } else { "glyph-id-out-of-range" };
             return Err(fail(
-                "glyph-id-out-of-range",
+                sig,
                 format!("{} (intact) text {:?} script {:?}: glyph {} has id {} >= numGlyphs {} (shape returned {})", entry.name, text, String::from_utf8_lossy(&script_tag.to_be_bytes()), i, info.glyph.glyph_index, num_glyphs, if shaped_ok { "Ok" } else { "Err" }),
             ));
         }
@@ -2831,7 +2938,7 @@ fn morx_graph_case(m: morx::MorxCase, j: u64) -> Case {
     // 'a' is class 4, 'b' class 5, 'z' out of bounds
     const TEXTS: [&str; 4] = ["abab", "ba", "aazb", "b"];
     Case {
-        generated: Some(Generated { gsub: None, tape: None, script: 0, retag: false, gdef_from_gpos: false, morx: Some(m) }),
+        generated: Some(Generated { gsub: None, tape: None, script: 0, retag: false, gdef_from_gpos: false, morx: Some(m), fraclig: None }),
         direct: None,
         group: 0,
         font: 0,
@@ -2941,8 +3048,12 @@ impl Property for C02 {
          generated-layout font: GSUB/GDEF/FeatureVariations from a C04 program and/or GPOS/kern/GDEF from a C05 tape over a shared \
          glyph set (U+E000+gid, plus the characters of a complex script when the programs are also registered under arab/deva/ \
          khmr/mym2/thai/syrc/beng/taml/mlym, optionally with the features renamed to those the shaper applies), intact or with \
-         structural faults, with the generators' witness strings and the deep reader's reaching strings; 30 % of the generated fonts \
-         instead carry a generated morx table and no GSUB (1-2 chains, contextual / ligature / non-contextual / opaque subtables, \
+         structural faults, with the generators' witness strings and the deep reader's reaching strings; 12 % of the generated fonts \
+         are frac+ligature fonts (c02_fraclig.rs: a `frac` feature next to 1-4 ligatures over letters, digits, '/', U+2044 and a mark, \
+         direct or nested in type 5/6 rules, under default-on features / frac / dlig; text = prefix + a ligature's components + a tail \
+         that mostly continues with '/' digit; FRAC set in the mask); 26 % of the generated fonts \
+         instead carry a generated morx table and no GSUB (substitution values: glyphs of the font, 0xFFFF = the AAT deleted glyph, \
+         which counts as well-formed, or arbitrary) (1-2 chains, contextual / ligature / non-contextual / opaque subtables, \
          class lookup formats 0/2/4/6/8/10, 2-6 states whose next states are drawn from all states and whose flags are drawn \
          independently, in-range and boundary indices; structural faults use the encoder's own field positions). Deterministic \
          sweeps: every 2- and 3-state morx state graph over two classes with every DONT_ADVANCE pattern (contextual and ligature); all strings \
